@@ -80,7 +80,7 @@ STRUCTS = {
     "ServerECDHParams": ("mkECDH", ["curve_params", "public"]),
     "DigitallySigned": ("mkDS", ["alg", "data"]),
     "SignatureAndHashAlgorithm": ("g_pair", ["hash", "sign"]),
-    "CtLogID": ("g_id", ["key_id"]),
+    "CtLogID": ("g_id", ["key_id"]), "OidFilter": ("g_pair", ["cert_ext_oid", "cert_ext_val"]),
     "SignedCertificateTimestamp": ("mkSCT", ["version", "id", "timestamp", "extensions", "signature"]),
     "TlsExtension::EncryptedServerName": ("EEncryptedServerName", ["ciphersuite", "group", "key_share", "record_digest", "encrypted_sni"]),
 }
@@ -100,6 +100,7 @@ DERIVED_PARSE = {
 }
 # functions whose model term has another name / shape
 MODEL_NAME = {"parse_named_groups": "parse_named_groups"}
+MODEL_CONSTS = {"MAX_RECORD_LEN", "MAX_RECORD_DATA"}
 COQ_KEYWORDS = {"type", "in", "as", "at", "end", "fun", "let", "match", "with", "return", "if", "then", "else", "fix", "forall", "exists", "using", "where", "Type", "Set", "Prop", "struct"}
 
 def ident(n):
@@ -120,6 +121,7 @@ class Translator:
         self.consts = {}         # "Type::Name" -> value
         self.plain_consts = {}   # NAME -> expression tokens (crate constants)
         self.derived = {}        # derive(Nom) items
+        self.array_fields = {}   # (struct, field) -> n for fields of type &[u8; n]
         self.load()
 
     def load(self):
@@ -133,6 +135,9 @@ class Translator:
                 ty = m.group(1)
                 for k, v in re.findall(r"(\w+)\s*=\s*(0x[0-9a-fA-F_]+|\d[\d_]*)", m.group(2)):
                     self.consts["%s::%s" % (ty, k)] = rustsub.num_value(v)
+            for m in re.finditer(r"pub struct (\w+)(?:<[^>]*>)?\s*\{(.*?)\n\}", src, re.S):
+                for fm in re.finditer(r"pub (\w+)\s*:\s*&'\w+\s*\[u8;\s*(\d+)\]", m.group(2)):
+                    self.array_fields[(m.group(1), fm.group(1))] = int(fm.group(2))
             for m in re.finditer(r"^\s*(?:pub(?:\([a-z]+\))?\s+)?const (\w+)\s*:\s*(\w+)\s*=\s*([^;]+);", src, re.M):
                 self.plain_consts[m.group(1)] = m.group(3).strip()
             try:
@@ -203,6 +208,7 @@ class Translator:
                 if n == "None": return "None"
                 if n in cx.fn_generics: return ident(n.lower())
                 if n in self.plain_consts and n not in cx.types and n not in cx.locals:
+                    if n not in MODEL_CONSTS: cx.used_consts.add(n)    # defined locally in gen/SrcParsers.v from its initialiser
                     return n      # crate constant: the model defines it under the same name (gen/Consts.v)
                 return ident(n)
             c = self.const_value(p)
@@ -210,6 +216,7 @@ class Translator:
             key = "::".join(p)
             if key in CTORS: return CTORS[key]
             if key == "Vec::new": return "(@nil _)"
+            if len(p) == 2 and p[0] == "TlsExtension": return "E" + p[1]
             raise Unsupported("path %s" % key)
         if k == "call":
             f = e[1]
@@ -220,10 +227,13 @@ class Translator:
                 if key == "Vec::new": return "(@nil _)"
                 if len(p) == 1 and p[0] in self.newtypes and len(e[2]) == 1: return self.val(e[2][0], cx)   # newtype wrapper
                 if key in ("usize::from", "u32::from", "u64::from", "u16::from", "u8::from") and len(e[2]) == 1: return self.val(e[2][0], cx)
+                if key not in CTORS and len(p) == 2 and p[0] == "TlsExtension": CTORS[key] = "E" + p[1]
                 if key in CTORS:
                     return "(%s %s)" % (CTORS[key], " ".join(self.val(a, cx) for a in e[2])) if e[2] else CTORS[key]
                 if len(p) == 1 and p[0] in STRUCTS:       # tuple struct listed with one field
                     return "(%s %s)" % (STRUCTS[p[0]][0], " ".join(self.val(a, cx) for a in e[2]))
+                if len(p) == 1 and p[0] in self.fns and self.parser_kind(self.fns[p[0]]) is None:
+                    return self.inline_pure(p[0], e[2], cx)
                 raise Unsupported("call of %s in a value position" % key)
             raise Unsupported("call in a value position")
         if k == "struct":
@@ -235,7 +245,12 @@ class Translator:
             g, order = STRUCTS[key]
             given = dict(e[2])
             if set(given) != set(order): raise Unsupported("struct literal %s: fields %s, expected %s" % (key, sorted(given), sorted(order)))
-            return "(%s %s)" % (g, " ".join(self.val(given[f], cx) for f in order))
+            vals = []
+            for f in order:
+                cx.array_len = self.array_fields.get((p[-1], f))
+                vals.append(self.val(given[f], cx))
+                cx.array_len = None
+            return "(%s %s)" % (g, " ".join(vals))
         if k == "tuple":
             if not e[1]: return "tt"
             return "(%s)" % ", ".join(self.val(a, cx) for a in e[1])
@@ -261,11 +276,50 @@ class Translator:
         if k == "tfield":
             if e[2] == 0: return self.val(e[1], cx)       # newtype .0
             raise Unsupported("tuple field .%d" % e[2])
+        if k == "index":
+            base, idx = e[1], e[2]
+            while base[0] == "paren": base = base[1]
+            if idx[0] == "range" and not idx[3]:
+                b = self.val(base, cx)
+                if idx[1] is None and idx[2] is not None:       # x[..n]: panics when n > len
+                    n = self.val(idx[2], cx); cx.guards.append("(slen %s <? %s)" % (b, n)); return "(stake %s %s)" % (b, n)
+                if idx[1] is not None and idx[2] is None:       # x[n..]
+                    n = self.val(idx[1], cx); cx.guards.append("(slen %s <? %s)" % (b, n)); return "(sdrop %s %s)" % (b, n)
+            raise Unsupported("index expression")
+        if k == "mcall" and e[2] == "collect" and not e[3]:
+            # the two list-decoding idioms of the crate, matched token for token
+            m = e[1]
+            if m[0] == "mcall" and m[2] == "map" and len(m[3]) == 1 and m[3][0][0] == "closure":
+                src_, clo = m[1], m[3][0]
+                if src_[0] == "mcall" and src_[2] == "chunks" and src_[3] == [("lit", 2)] and clo[1] == [("pid", "chunk")]:
+                    body = clo[2]
+                    ok = (body[0] == "call" and body[1][0] == "path" and len(body[1][1]) == 1 and body[1][1][0] in self.newtypes and len(body[2]) == 1 and
+                          body[2][0] == ("bin", "|", ("bin", "<<", ("paren", ("cast", ("index", ("path", ["chunk"]), ("lit", 0)), "u16")), ("lit", 8)),
+                                         ("cast", ("index", ("path", ["chunk"]), ("lit", 1)), "u16")))
+                    if ok:
+                        sl = self.val(src_[1], cx)
+                        cx.guards.append("(pairs16_panics (bytes %s))" % sl)     # chunk[1] on a trailing 1-byte chunk
+                        return "(pairs16_val (bytes %s))" % sl
+                if src_[0] == "mcall" and src_[2] == "iter" and not src_[3] and clo[1] == [("pref", ("pid", "it"))]:
+                    body = clo[2]
+                    if body[0] == "call" and body[1][0] == "path" and len(body[1][1]) == 1 and body[1][1][0] in self.newtypes and body[2] == [("path", ["it"])]:
+                        return "(map b2n (bytes %s))" % self.val(src_[1], cx)
+            raise Unsupported("iterator chain outside the two known idioms")
+        if k == "mcall" and e[2] == "expect" and e[1][0] == "mcall" and e[1][2] == "try_into" and not e[1][3]:
+            n = getattr(cx, "array_len", None)
+            if n is None: raise Unsupported("try_into().expect() outside a struct field of array type")
+            v = self.val(e[1][1], cx)
+            cx.guards.append("(negb (slen %s =? %d))" % (v, n))          # the conversion to &[u8; n] fails otherwise
+            return v
         if k == "mcall":
             r = self.val(e[1], cx)
             if e[2] == "len" and not e[3]: return "(slen %s)" % r
             if e[2] == "is_empty" and not e[3]: return "(slen %s =? 0)" % r
             if e[2] == "to_vec" and not e[3]: return "(bytes %s)" % r
+            if e[2] == "checked_sub" and len(e[3]) == 1:
+                b = self.val(e[3][0], cx)
+                return "(if %s <? %s then None else Some (%s - %s))" % (r, b, r, b)
+            if e[2] == "saturating_sub" and len(e[3]) == 1: return "(%s - %s)" % (r, self.val(e[3][0], cx))
             raise Unsupported("method .%s()" % e[2])
         if k == "bin":
             op, a, b = e[1], self.val(e[2], cx), self.val(e[3], cx)
@@ -299,6 +353,33 @@ class Translator:
             return "[%s]" % "; ".join(self.val(a, cx) for a in e[1])
         raise Unsupported("value expression %s" % k)
 
+    def inline_pure(self, name, args, cx, depth=0):
+        """a call of a non-parser helper of the crate (fn(args) -> value with a straight-line body): its body, with the
+        parameters let-bound to the arguments"""
+        it = self.fns[name]
+        if depth > 4 or it["body"] is None or it["body"][0] != "block": raise Unsupported("helper %s" % name)
+        ps = [q for q in it["params"] if q[0] != "self"]
+        if len(ps) != len(args): raise Unsupported("helper %s: arity" % name)
+        vals = [self.val(a, cx) for a in args]
+        saved_types, saved_locals = dict(cx.types), set(cx.locals)
+        for (pn, pt) in ps:
+            cx.locals.add(pn)
+            tt = re.sub(r"&|'\w+|\s", "", pt)
+            if tt in ("TlsRecordHeader", "DTLSRecordHeader"): cx.types[pn] = tt
+        body = it["body"]
+        inner = None
+        lets = []
+        for st in body[1]:
+            if st[0] != "let" or self.has_try(st[2]): raise Unsupported("helper %s: statement" % name)
+            lets.append((self.pat(st[1], cx), self.val(st[2], cx)))
+        if body[2] is None: raise Unsupported("helper %s: no value" % name)
+        t = self.val(body[2], cx)
+        for pa, v in reversed(lets): t = "(let %s := %s in %s)" % (pa, v, t)
+        for (pn, _), v in reversed(list(zip(ps, vals))): t = "(let %s := %s in %s)" % (ident(pn), v, t)
+        cx.types, cx.locals = saved_types, saved_locals
+        cx.calls.add(name)
+        return t
+
     def pat(self, p, cx):
         k = p[0]
         if k == "pwild": return "_"
@@ -313,13 +394,14 @@ class Translator:
         it = self.fns.get(name)
         return it is not None and self.parser_kind(it) is not None
 
-    def generic_args(self, path):
+    def generic_args(self, path, cx=None):
         out = []
         for s in path:
             if s.startswith("<"):
                 for a in s[1:-1].split(","):
                     a = a.strip()
                     if a in ("true", "false"): out.append(a)
+                    elif cx is not None and a in cx.fn_generics: out.append(ident(a.lower()))
                     else: raise Unsupported("generic argument %s" % a)
         return out
 
@@ -330,11 +412,12 @@ class Translator:
             p = [s for s in e[1] if not s.startswith("<")]
             key = "::".join(p)
             if key in NOM_PRIMS: return NOM_PRIMS[key]
+            if len(p) == 1 and p[0] in cx.parser_params: return ident(p[0])
             if len(p) == 1 and self.is_crate_parser(p[0]):
                 it = self.fns[p[0]]
                 if self.parser_kind(it) != "direct" or self.extras(it): raise Unsupported("parser %s needs arguments" % p[0])
                 cx.calls.add(p[0])
-                return self.model_term(p[0], [], self.generic_args(e[1]))
+                return self.model_term(p[0], [], self.generic_args(e[1], cx))
             if len(p) == 2 and p[1] == "parse":
                 return self.type_parse(p[0], [], cx)
             raise Unsupported("parser expression %s" % key)
@@ -378,7 +461,7 @@ class Translator:
                     return "(Bind %s (fun x__ => Bind %s (fun _ => Ret x__)))" % (self.parser(a[0], cx), self.parser(a[1], cx))
                 if len(p) == 1 and self.is_crate_parser(p[0]) and self.parser_kind(self.fns[p[0]]) == "factory":
                     cx.calls.add(p[0])
-                    return self.model_term(p[0], [self.val(x, cx) for x in a], self.generic_args(f[1]))
+                    return self.model_term(p[0], [self.val(x, cx) for x in a], self.generic_args(f[1], cx))
                 raise Unsupported("combinator %s/%d" % (key, len(a)))
             raise Unsupported("parser expression (call)")
         if k == "closure":
@@ -395,7 +478,7 @@ class Translator:
                     if self.mentions(a, x): raise Unsupported("closure parser uses its input twice")
                 if len(p) == 1 and self.is_crate_parser(p[0]) and self.parser_kind(self.fns[p[0]]) == "direct":
                     cx.calls.add(p[0])
-                    return self.model_term(p[0], [self.val(a, cx) for a in extra], self.generic_args(body[1][1]))
+                    return self.model_term(p[0], [self.val(a, cx) for a in extra], self.generic_args(body[1][1], cx))
                 if len(p) == 2 and p[1] == "parse":
                     return self.type_parse(p[0], [self.val(a, cx) for a in extra], cx)
                 if "::".join(p) in NOM_PRIMS and not extra: return NOM_PRIMS["::".join(p)]
@@ -427,6 +510,7 @@ class Translator:
             key = "::".join(p)
             if len(p) == 1 and p[0] in self.newtypes: return "(fun x__ => x__)"
             if key in CTORS: return CTORS[key]
+            if len(p) == 2 and p[0] == "TlsExtension": return "E" + p[1]
             if len(p) == 1 and p[0] in STRUCTS: return STRUCTS[p[0]][0]
             raise Unsupported("function %s" % key)
         raise Unsupported("function argument %s" % e[0])
@@ -479,7 +563,7 @@ class Translator:
                 if key in NOM_PRIMS and len(a) == 1: return "(run %s %s)" % (NOM_PRIMS[key], self.val(a[0], cx))
                 if len(p) == 1 and self.is_crate_parser(p[0]) and self.parser_kind(self.fns[p[0]]) == "direct" and a:
                     cx.calls.add(p[0])
-                    t = self.model_term(p[0], [self.val(x, cx) for x in a[1:]], self.generic_args(f[1]))
+                    t = self.model_term(p[0], [self.val(x, cx) for x in a[1:]], self.generic_args(f[1], cx))
                     return self.guarded(cx, g0, "(run %s %s)" % (t, self.val(a[0], cx)))
                 if len(p) == 2 and p[1] == "parse" and a:
                     t = self.type_parse(p[0], [self.val(x, cx) for x in a[1:]], cx)
@@ -583,7 +667,23 @@ class Translator:
                     raise Unsupported("branch of a let-if")
                 c = self.val(e[1], cx)
                 return "(let k__ := %s in if %s then %s else %s)" % (k, c, branch(e[2]), branch(e[3]))
-            if e[0] == "match" and False: pass
+            if e[0] == "match" and any(self.is_return(b) for _, _, b in e[2]):
+                g0 = len(cx.guards)
+                sc = self.val(e[1], cx)
+                some_arm = none_arm = None
+                for pt, guard, body in e[2]:
+                    if guard is not None: raise Unsupported("guarded arm in a let-match")
+                    if pt[0] == "pts" and pt[1] == ["Some"] and len(pt[2]) == 1: some_arm = (pt[2][0], body)
+                    elif (pt[0] == "ppath" and pt[1] == ["None"]) or pt[0] == "pwild": none_arm = body
+                    else: raise Unsupported("let-match pattern")
+                if some_arm is None or none_arm is None: raise Unsupported("let-match over something else than an Option")
+                def arm(body, binder=None):
+                    if self.is_return(body): return self.res(self.ret_expr(body), cx)
+                    v = self.val(body, cx)
+                    return "(let %s := %s in %s)" % (self.pat(pat, cx), v, self.stmts(rest, tail, cx))
+                sp = self.pat(some_arm[0], cx)
+                t = "(match %s with Some %s => %s | None => %s end)" % (sc, sp, arm(some_arm[1]), arm(none_arm))
+                return self.guarded(cx, g0, t)
             g0 = len(cx.guards)
             v = self.val(e, cx)
             if pat[0] == "pid":
@@ -604,6 +704,15 @@ class Translator:
             raise Unsupported("statement %s" % e[0])
         raise Unsupported("statement")
 
+    def is_return(self, b):
+        while b[0] == "block" and not b[1] and b[2] is not None: b = b[2]
+        if b[0] == "block" and len(b[1]) == 1 and b[2] is None and b[1][0][0] == "expr": b = b[1][0][1]
+        return b[0] == "return"
+    def ret_expr(self, b):
+        while b[0] == "block" and not b[1] and b[2] is not None: b = b[2]
+        if b[0] == "block" and len(b[1]) == 1 and b[2] is None and b[1][0][0] == "expr": b = b[1][0][1]
+        return b[1]
+
     def ends_with_return(self, bl):
         if bl[2] is not None: return bl[2][0] == "return"
         return bool(bl[1]) and bl[1][-1][0] == "expr" and bl[1][-1][1][0] == "return"
@@ -619,18 +728,21 @@ class Translator:
     def translate_fn(self, name):
         it = self.fns[name]
         kind = self.parser_kind(it)
-        cx = Ctx(self, it); cx.calls = set(); cx.locals = set(); cx.fn_generics = set(self.const_generics(it))
+        cx = Ctx(self, it); cx.calls = set(); cx.locals = set(); cx.fn_generics = set(self.const_generics(it)); cx.parser_params = set(); cx.used_consts = set()
         params = []
         for g in self.const_generics(it): params.append("(%s : bool)" % ident(g.lower()))
         for n, t in self.extras(it):
             tt = re.sub(r"&|'\w+|\s", "", t)
             if tt in ("usize", "u8", "u16", "u32", "u64") or tt in self.newtypes: params.append("(%s : N)" % ident(n))
             elif tt == "bool": params.append("(%s : bool)" % ident(n))
+            elif re.search(r"\b%s\s*:\s*Fn(Mut)?\s*\(\s*&" % re.escape(tt), it.get("where", "") + " " + it["generics"]):
+                params.append("{T__ : Type} (%s : P T__)" % ident(n)); cx.parser_params.add(n)
             elif tt in STRUCTS or tt in ("TlsRecordHeader", "DTLSRecordHeader"):
                 params.append("(%s : %s)" % (ident(n), tt)); cx.types[n] = tt
             else: raise Unsupported("parameter %s : %s" % (n, t))
             cx.locals.add(n)
         body = it["body"]
+        if body[0] == "unparsed": raise Unsupported("body outside the Rust subset read by tools/rustsub.py: " + body[1])
         if kind == "direct":
             inp = it["params"][0][0]
             cx.locals.add(inp)
@@ -643,8 +755,59 @@ class Translator:
             inp = b[1][0][1]; cx.locals.add(inp)
             term = self.res(b[2], cx)
         if cx.guards: raise Unsupported("internal: unplaced guards")
-        return dict(name=name, params=params, input=ident(inp), term=term, calls=sorted(cx.calls),
+        return dict(name=name, params=params, input=ident(inp), term=term, calls=sorted(cx.calls), consts=sorted(cx.used_consts),
                     generics=[ident(g.lower()) for g in self.const_generics(it)], extras=[ident(n) for n, _ in self.extras(it)])
+
+    # ---- #[derive(Nom)] items: nom-derive 0.10 generates `parse` reading the fields in declaration order ----
+    def translate_derive(self, name):
+        d = self.derived[name]
+        it = dict(name=name + "::parse", generics="", params=[], ret="", body=None)
+        cx = Ctx(self, it); cx.calls = set(); cx.locals = {"i"}; cx.fn_generics = set(); cx.parser_params = set(); cx.used_consts = set()
+        def attr_val(attrs, key):
+            for a in attrs:
+                m = re.search(r'nom \( %s = ("(?:[^"\\]|\\.)*") \)' % key, a)
+                if m: return m.group(1)[1:-1]
+            for a in attrs:
+                if re.search(r"nom \(", a) and not re.search(r"nom \( (Parse|Selector) =", a): raise Unsupported("nom attribute %s" % a)
+            return None
+        def field_parser(ty, attrs):
+            pv = attr_val(attrs, "Parse")
+            if pv is not None:
+                pv = pv.strip()
+                if pv.startswith("{") and pv.endswith("}"): pv = pv[1:-1]
+                e = rustsub.Parser(rustsub.tokenise(pv)).expr()
+                return self.parser(e, cx)
+            t = re.sub(r"<.*>|\s", "", ty)
+            if t in ("u8", "u16", "u32", "u64"): return {"u8": "be_u8", "u16": "be_u16", "u32": "be_u32", "u64": "be_u64"}[t]
+            return self.type_parse(t, [], cx)
+        if d["kind"] == "struct":
+            if d["tuple"]: raise Unsupported("tuple struct")
+            if name not in STRUCTS: raise Unsupported("struct %s has no model constructor" % name)
+            g, order = STRUCTS[name]
+            names = [f[0] for f in d["fields"]]
+            if sorted(names) != sorted(order): raise Unsupported("fields %s, the model has %s" % (names, order))
+            term = "(Ok i (%s %s))" % (g, " ".join(ident(f) for f in order))
+            for fname, ty, attrs in reversed(d["fields"]):
+                pt = field_parser(ty, attrs)          # may mention earlier fields (they are in scope as locals)
+                term = "(bindr (run %s i) (fun i %s => %s))" % (pt, ident(fname), term)
+            for fname, _, _ in d["fields"]: cx.locals.add(fname)
+            return dict(name=name + "_parse", params=[], input="i", term=term, calls=sorted(cx.calls), consts=[], generics=[], extras=[], model=DERIVED_PARSE.get(name),
+                        file=d["file"])
+        # enum with a selector
+        sel = attr_val(d["attrs"], "Selector")
+        if sel is None: raise Unsupported("enum without Selector")
+        term = "(Err i KSwitch)"
+        for vname, payload, attrs in reversed(d["fields"]):
+            sv = attr_val(attrs, "Selector")
+            if sv is None: raise Unsupported("variant %s without Selector" % vname)
+            c = self.const_value(sv.split("::"))
+            if c is None: raise Unsupported("selector %s" % sv)
+            key = "%s::%s" % (name, vname)
+            if key not in CTORS: raise Unsupported("variant %s has no model constructor" % key)
+            pt = field_parser(payload, [a for a in attrs if "Selector" not in a])
+            term = "(if selector =? %s then (bindr (run %s i) (fun i v__ => Ok i (%s v__))) else %s)" % (c, pt, CTORS[key], term)
+        return dict(name=name + "_parse", params=["(selector : N)"], input="i", term=term, calls=sorted(cx.calls), consts=[], generics=[], extras=["selector"],
+                    model=DERIVED_PARSE.get(name), file=d["file"])
 
     def parser_functions(self):
         return sorted(n for n, it in self.fns.items() if it["body"] is not None and self.parser_kind(it) and "::" not in n)
@@ -671,26 +834,55 @@ def main():
             failed[n] = str(e)
         except (IndexError, KeyError, TypeError) as e:
             failed[n] = "internal: %r" % (e,)
+    for n, dv in sorted(T.derived.items()):
+        if dv["tuple"] and dv["kind"] == "struct": continue          # integer newtypes: their width is read directly (type_parse)
+        try:
+            r = T.translate_derive(n)
+            if r["model"] is None: raise Unsupported("no model term for %s::parse" % n)
+            T.fns[r["name"]] = dict(file=r["file"])
+            done.append(r)
+        except Unsupported as e:
+            failed[n + "_parse"] = str(e)
     exp_path = os.path.join(VERIF, "tools", "t12_expected.json")
     expected = json.load(open(exp_path)) if os.path.exists(exp_path) else {}
     lines = ["(* GENERATED by tools/t12.py (T12) from the parser functions of /repo/src/*.rs -- do not edit *)",
-             "From TlsModel Require Import Nom Values Handshake Record Extensions Kx Dtls SrcGlue.", "From TlsModel Require Import Consts.", "Open Scope N_scope.", ""]
+             "From TlsModel Require Import Nom Values Handshake Record Extensions Kx Dtls ModelExtra SrcGlue.", "From TlsModel Require Import Consts.", "Open Scope N_scope.", ""]
     tie = ["(* GENERATED by tools/t12.py (T12): for every translated function, the source text means what the model's term means *)",
-           "From TlsModel Require Import Nom Values Handshake Record Extensions Kx Dtls SrcGlue Consts SrcParsers TieTactics.", "Open Scope N_scope.", ""]
+           "From TlsModel Require Import Nom Values Handshake Record Extensions Kx Dtls ModelExtra SrcGlue Consts SrcParsers TieTactics.", "Open Scope N_scope.", ""]
     tactics_src = open(os.path.join(VERIF, "coq", "Proofs", "TieTactics.v")).read() if os.path.exists(os.path.join(VERIF, "coq", "Proofs", "TieTactics.v")) else ""
+    emitted_consts = set()
     for d in done:
+        for c in d.get("consts", []):
+            if c in emitted_consts: continue
+            emitted_consts.add(c)
+            try:
+                cx0 = Ctx(T, None); cx0.calls = set(); cx0.locals = set(); cx0.fn_generics = set(); cx0.parser_params = set(); cx0.used_consts = set()
+                v = T.val(rustsub.Parser(rustsub.tokenise(T.plain_consts[c])).expr(), cx0)
+                lines.append("Definition %s : N := %s.\n" % (c, v))
+            except Unsupported as e:
+                failed[d["name"]] = "constant %s: %s" % (c, e)
         lines.append("(* %s: %s *)" % (T.fns[d["name"]]["file"], d["name"]))
         lines.append("Definition src_%s %s (%s : slice) :=\n  %s.\n" % (d["name"], " ".join(d["params"]), d["input"], d["term"]))
         if expected.get(d["name"], "tied") != "tied": continue
-        binders = " ".join(d["generics"] + d["extras"] + ["i"])
+        binders = " ".join([q.replace("{", "(").replace("}", ")") for q in d["params"]] + ["i"])
         args_ = " ".join(d["generics"] + d["extras"])
         tac = "tie_%s" % d["name"] if re.search(r"Ltac tie_%s\b" % d["name"], tactics_src) else "tie"
-        model = MODEL_NAME.get(d["name"], d["name"])
-        tie.append("Lemma tie_%s : forall %s, src_%s %s i = run %s i.\nProof. %s. Qed.\n" % (
-            d["name"], binders, d["name"], args_, ("(%s %s)" % (model, args_)) if args_ else model, tac))
+        model = d.get("model") or MODEL_NAME.get(d["name"], d["name"])
+        tie.append("Lemma tie_%s : forall %s, src_%s %s i = run %s i.\nProof. intros; unfold src_%s, %s; %s. Qed.\n" % (
+            d["name"], binders, d["name"], args_, ("(%s %s)" % (model, args_)) if args_ else model, d["name"], model, tac))
     os.makedirs(out, exist_ok=True)
-    open(os.path.join(out, "SrcParsers.v"), "w").write("\n".join(lines) + "\n")
-    open(os.path.join(out, "SrcTie.v"), "w").write("\n".join(tie) + "\n")
+    # diagnostic variant: every statement tried on its own, failures printed instead of stopping the file
+    diag = []
+    for l in tie:
+        m = re.match(r"Lemma (tie_\w+) : (.*)\nProof\. (.*)\. Qed\.\n$", l, re.S)
+        if m: diag.append('Goal %s\nProof. first [ solve [ timeout 60 (%s) ] | idtac "TIEFAIL %s" ]. Abort.\n' % (m.group(2), m.group(3), m.group(1)))
+        else: diag.append(l)
+    def write_if_changed(name, content):
+        pth = os.path.join(out, name)
+        if not os.path.exists(pth) or open(pth).read() != content: open(pth, "w").write(content)
+    write_if_changed("SrcTieDiag.v", "\n".join(diag) + "\n")
+    write_if_changed("SrcParsers.v", "\n".join(lines) + "\n")
+    write_if_changed("SrcTie.v", "\n".join(tie) + "\n")
     rep = dict(translated={d["name"]: dict(calls=d["calls"], file=T.fns[d["name"]]["file"]) for d in done}, untranslatable=failed,
                file_errors=getattr(T, "file_errors", []))
     # deviations from the committed expectation
@@ -701,7 +893,7 @@ def main():
     for n in list(rep["translated"]) + list(failed):
         if expected and n not in expected: dev.append("UNTRANSLATABLE T12: %s: function of the source without a model term to tie it to" % n)
     rep["deviations"] = dev
-    if report: json.dump(rep, open(report, "w"), indent=1)
+    json.dump(rep, open(report or os.path.join(out, "t12_report.json"), "w"), indent=1)
     print("T12: %d parser functions translated, %d outside the subset" % (len(done), len(failed)))
     for d in dev: print(d)
     if "--verbose" in args:
